@@ -1,6 +1,6 @@
 (* C11 — pool accounting and bond-denom supply follow the admin's power assignments. *)
 From stdpp Require Import gmap.
-Require Import Model.Base Model.State Model.Staking Model.Slashing Model.Poa Model.App proofs.L1Effects proofs.InvHistory proofs.InvPools.
+Require Import Model.Base Model.State Model.Staking Model.Slashing Model.Poa Model.App proofs.L1Effects proofs.InvHistory proofs.InvPools proofs.InvSupply.
 
 (* every PoA message ends with this reconciliation: afterwards the bonded pool holds exactly the tokens of the
    bonded validators, the not-bonded pool is untouched, and the supply moved by exactly what the pool moved
@@ -27,3 +27,18 @@ Proof. intros g bs Hg c. destruct (reachable_all g bs Hg) as (_ & _ & H). exact 
 Theorem C11_pool_transfer_never_short : forall g bs,
   wf_genesis g -> apply_valset_updates (w_chain (run_world (init_world g) bs)) <> EBHalt 4.
 Proof. intros g bs Hg. destruct (reachable_all g bs Hg) as (HC & _ & HB). apply apply_valset_updates_funds; assumption. Qed.
+
+(* nobody else is credited or debited, ever: after any history the bond-denom supply is what the accounts held at genesis plus
+   the two staking pools — every mint and burn of a PoA operation, every downtime and double-sign slash and every transfer of
+   x/staking's EndBlocker lands in a pool and nowhere else (the model has no x/mint: the test chain's inflation is zero) *)
+Theorem C11_supply_is_accounts_plus_pools : forall g bs,
+  let c := w_chain (run_world (init_world g) bs) in
+  supply (bk c) = genesis_outside g + bonded_pool (bk c) + notbonded_pool (bk c).
+Proof. exact history_outside. Qed.
+
+(* ... so, with the bonded pool equal to the bonded validators' tokens: the supply follows the admin's assignments and the slashing burns *)
+Theorem C11_supply_follows_the_validators : forall g bs,
+  wf_genesis g ->
+  let c := w_chain (run_world (init_world g) bs) in
+  supply (bk c) = genesis_outside g + bonded_tokens (stk c) + notbonded_pool (bk c).
+Proof. exact history_supply. Qed.
